@@ -578,17 +578,18 @@ def reduceCheckRest (dt : DataType) : List FieldMeta → Except PlanErr Unit
 
 def allSameUnit (u : String) (ms : List FieldMeta) : Bool := ms.all (fun m => m.unit == u)
 
-/-- "Verify all requested fields were found" reduce_field_report_value.go:59-77 (`n` = number of fields found) -/
+/-- "Verify all requested fields were found" reduce_field_report_value.go:59-82 (`n` = number of DISTINCT urns found:
+`len(foundUrns)`, fix 5caebc0 — the available fields may hold one urn twice inside a select) -/
 def reduceIsMissing (urns : Option (List String)) (n : Nat) : Bool :=
   match urns with
   | none => false
   | some us => n != us.eraseDups.length
 
-/-- reduce_field_report_value.go:38-141 -/
+/-- reduce_field_report_value.go:38-146 -/
 def reduceR (rt : RedType) (urns : Option (List String)) (fms : List FieldMeta) :
     Except PlanErr (Planned (List (Val D)) D) :=
   let picked := reducePick urns fms
-  if reduceIsMissing urns picked.length then .error .reduceMissing
+  if reduceIsMissing urns (picked.map (·.1.urn)).eraseDups.length then .error .reduceMissing
   else match picked with
     | [] => .error .reduceNone
     | (m0, _) :: rest =>
